@@ -211,3 +211,33 @@ def pars_model(run, prop="C12"):
     run.extra["model_bounds"] = [dict(ntips=b[0], nstates=b[1], ambiguous_tip_sets=b[2]) for b in bounds]
     cases_path, n = emit_cases(run, prop, outs)
     replay_cases(run, prop, cases_path, n, "replay-calc", "TraceCalc.tla", pipelines.CALC_CFG % ('"%s"' % prop))
+
+
+# ------------------------------------------------------------------------------------------------
+# Split-keyed index: EdgeIndex.tla
+
+IDX_MODEL = ([(3, 4, "{1, 2, 3, 4, 8}", "{1, 2, 3}")], [(3, 5, "{1, 2, 3, 4, 8}", "{1, 2, 3, 4, 5}"), (4, 4, "{1, 2, 4}", "{1, 2, 3}")])
+
+IDX_MODEL_CFG = """SPECIFICATION Spec
+CONSTANTS
+  NKeys = %d
+  MaxOps = %d
+  Caps = %s
+  Loads = %s
+  Emit = TRUE
+INVARIANTS ActsLikeMap AnswersLikeMap
+ACTION_CONSTRAINT EmitTransition
+VIEW StateView
+CHECK_DEADLOCK FALSE
+"""
+
+
+def index_model(run, prop="C04"):
+    import pipelines
+    bounds = IDX_MODEL[0] if run.tier == "quick" else IDX_MODEL[1]
+    outs = []
+    for bi, (nk, mo, caps, loads) in enumerate(bounds):
+        outs.append(vk.run_model(run, "EdgeIndex-%d" % bi, "EdgeIndex.tla", IDX_MODEL_CFG % (nk, mo, caps, loads), workers=vk.NCPU, heap="8g"))
+    run.extra["index_model_bounds"] = [dict(nkeys=b[0], maxops=b[1], capacities=b[2], loadfactors=b[3]) for b in bounds]
+    cases_path, n = emit_cases(run, prop, outs)
+    replay_cases(run, prop, cases_path, n, "replay-calc", "TraceCalc.tla", pipelines.CALC_CFG % ('"%s"' % prop), per_shard=500)
